@@ -60,7 +60,7 @@ func mainEngine(o *Out, scnFile string, seed int64, count int, modes string, var
 		id++
 		cj := cfg.toJSON()
 		agree := true
-		if id%3 == 0 && cfg.GenMode != "hugeloop" { // every third scenario is also executed through (*Flow).Run
+		if id%3 == 0 && !cfg.counted() { // every third scenario is also executed through (*Flow).Run
 			if src == "tlc" {
 				agree = flowRunAgrees(cfg, func() Script { return scriptFromHistory(exp) }, evs)
 			} else {
@@ -68,7 +68,7 @@ func mainEngine(o *Out, scnFile string, seed int64, count int, modes string, var
 			}
 		}
 		reent := true
-		if id%4 == 1 && !cfg.Cancel && cfg.GenMode != "hugeloop" {
+		if id%4 == 1 && !cfg.Cancel && !cfg.counted() {
 			// every fourth scenario is executed once more with a run of the same node object nested into an exec callback
 			if src == "tlc" {
 				reent = nestedRunInvisible(cfg, func() Script { return scriptFromHistory(exp) }, evs)
@@ -85,7 +85,7 @@ func mainEngine(o *Out, scnFile string, seed int64, count int, modes string, var
 				fam = "enginepanic" // judged only on what a run that does return must satisfy
 			}
 		}
-		if cfg.GenMode == "hugeloop" {
+		if cfg.counted() {
 			fam = "enginelong" // judged on the counted facts of the run
 		}
 		o.WriteScenarioY(id, fam, src, cj, exp, evs, agree, reent)
@@ -116,7 +116,7 @@ func mainEngine(o *Out, scnFile string, seed int64, count int, modes string, var
 				fam = "engine"
 			}
 			reent := true
-			if !cfg.Cancel && cfg.GenMode != "hugeloop" {
+			if !cfg.Cancel && !cfg.counted() {
 				if asStr(line["src"]) == "tlc" {
 					reent = nestedRunInvisible(cfg, func() Script { return scriptFromHistory(exp) }, evs)
 				} else {
@@ -175,3 +175,6 @@ func mainEngine(o *Out, scnFile string, seed int64, count int, modes string, var
 		}
 	}
 }
+
+// counted: scenarios whose callbacks are counted and checked as they come instead of being kept
+func (c EngineCfg) counted() bool { return c.GenMode == "hugeloop" || c.GenMode == "longchain" }
